@@ -31,10 +31,16 @@ func c01Placements() []c01Placement {
 		}
 	}
 	return []c01Placement{
-		{"BEGIN", func(b string) (string, string) { return "BEGIN { " + b + " } { print 'rule', $ } END { print 'END' }", "" }},
+		{"BEGIN", func(b string) (string, string) {
+			return "BEGIN { " + b + " } { print 'rule', $ } END { print 'END' }", ""
+		}},
 		{"END", func(b string) (string, string) { return "{ print 'rule', $ } END { " + b + " }", "" }},
-		{"BEGINFILE", func(b string) (string, string) { return "BEGINFILE { " + b + " } { print 'rule', $ } ENDFILE { print 'ef' }", "" }},
-		{"ENDFILE", func(b string) (string, string) { return "{ print 'rule', $ } ENDFILE { " + b + " } END { print 'END' }", "" }},
+		{"BEGINFILE", func(b string) (string, string) {
+			return "BEGINFILE { " + b + " } { print 'rule', $ } ENDFILE { print 'ef' }", ""
+		}},
+		{"ENDFILE", func(b string) (string, string) {
+			return "{ print 'rule', $ } ENDFILE { " + b + " } END { print 'END' }", ""
+		}},
 		{"pattern-body", func(b string) (string, string) { return "{ " + b + " } { print 'second', $ } END { print 'END' }", "" }},
 		{"pattern-expression", func(b string) (string, string) {
 			return "match (1) { 1 => { " + b + " } } { print 'body', $ } { print 'second', $ } END { print 'END' }", ""
@@ -80,7 +86,9 @@ func c01Body(sig, loop string) string {
 
 const c01E1 = 6 * 16 * 6 * 4
 
-func legalClass(cl string) bool { return cl == "ok" || cl == "syntax" || cl == "runtime" || cl == "json" }
+func legalClass(cl string) bool {
+	return cl == "ok" || cl == "syntax" || cl == "runtime" || cl == "json"
+}
 
 type c01Run struct {
 	prog  string
@@ -145,6 +153,20 @@ func c01CheckB(c *Case, r c01Run, fuzzing bool, cli bool, key string, budget int
 			map[string]any{"program": r.prog, "selectors": r.sels, "input": string(r.input), "stderr": string(res.Stderr), "exit": res.Exit})
 		return
 	}
+	if c.env.JqawkRace != "" {
+		// the same run through the -race build: a race or checkptr report is a fatal exit with its own signature
+		rr := RunCli(c.env.JqawkRace, args, r.input, c.env.Scratch, 120*time.Second)
+		c.Count("race_binary_runs")
+		if !rr.TimedOut {
+			se := string(rr.Stderr)
+			if strings.Contains(se, "DATA RACE") || strings.Contains(se, "checkptr") || rr.Exit == 66 || cliFault(rr) != "" {
+				c.Violation(fmt.Sprintf("%s (race/checkptr build): exit %d, stderr %s | program: %s", key, rr.Exit, clip(se, 300), clip(r.prog, 200)), nil,
+					map[string]any{"program": r.prog, "selectors": r.sels, "input": string(r.input), "stderr": se})
+				return
+			}
+			c.Held()
+		}
+	}
 	// the exit status agrees with the library's outcome (stdin that is empty processes no value)
 	want := 0
 	if lib.Class != "ok" {
@@ -172,18 +194,30 @@ func rep(s string, n int) string { return strings.Repeat(s, n) }
 func c01NestForms() []nestForm {
 	return []nestForm{
 		{"parentheses", func(n int) string { return "BEGIN { print " + rep("(", n) + "1" + rep(")", n) + " }" }, 2,
-			func(n int) string { return "function r(v) { return " + rep("(", n) + "r(v + 1)" + rep(")", n) + " } BEGIN { print 'm'; r(1) }" }},
+			func(n int) string {
+				return "function r(v) { return " + rep("(", n) + "r(v + 1)" + rep(")", n) + " } BEGIN { print 'm'; r(1) }"
+			}},
 		{"prefix-minus", func(n int) string { return "BEGIN { print " + rep("- ", n) + "1 }" }, 2,
-			func(n int) string { return "function r(v) { return " + rep("- ", n) + "r(v + 1) } BEGIN { print 'm'; r(1) }" }},
+			func(n int) string {
+				return "function r(v) { return " + rep("- ", n) + "r(v + 1) } BEGIN { print 'm'; r(1) }"
+			}},
 		{"prefix-not", func(n int) string { return "BEGIN { print " + rep("!", n) + "1 }" }, 1,
-			func(n int) string { return "function r(v) { return " + rep("!", n) + "r(v + 1) } BEGIN { print 'm'; r(1) }" }},
-		{"array-literals", func(n int) string { return "BEGIN { x = " + rep("[", n) + "1" + rep("]", n) + "; print 'built'; print x.length() }" }, 2,
-			func(n int) string { return "function r(v) { return " + rep("[", n) + "r(v + 1)" + rep("]", n) + " } BEGIN { print 'm'; r(1) }" }},
+			func(n int) string {
+				return "function r(v) { return " + rep("!", n) + "r(v + 1) } BEGIN { print 'm'; r(1) }"
+			}},
+		{"array-literals", func(n int) string {
+			return "BEGIN { x = " + rep("[", n) + "1" + rep("]", n) + "; print 'built'; print x.length() }"
+		}, 2,
+			func(n int) string {
+				return "function r(v) { return " + rep("[", n) + "r(v + 1)" + rep("]", n) + " } BEGIN { print 'm'; r(1) }"
+			}},
 		{"object-literals", func(n int) string { return "BEGIN { x = " + rep("{a:", n) + "1" + rep("}", n) + "; print 'built' }" }, 4, nil},
 		{"print-nested-arrays", func(n int) string { return "BEGIN { print " + rep("[", n) + "1" + rep("]", n) + " }" }, 2, nil},
 		{"json-nested-arrays", func(n int) string { return "BEGIN { print json(" + rep("[", n) + "1" + rep("]", n) + ").length() }" }, 2, nil},
 		{"member-chain", func(n int) string { return "BEGIN { x = {}; print x" + rep(".a", n) + " }" }, 2,
-			func(n int) string { return "function r(v) { return r(v + 1)" + rep(".a", n) + " } BEGIN { print 'm'; r(1) }" }},
+			func(n int) string {
+				return "function r(v) { return r(v + 1)" + rep(".a", n) + " } BEGIN { print 'm'; r(1) }"
+			}},
 		{"member-chain-store", func(n int) string { return "BEGIN { x" + rep(".a", n) + " = 1; print 'stored' }" }, 2, nil},
 		{"index-chain", func(n int) string { return "BEGIN { x = [1]; print x" + rep("[0]", n) + " }" }, 3, nil},
 		{"index-chain-store", func(n int) string { return "BEGIN { x" + rep("[0]", n) + " = 1; print 'stored' }" }, 3, nil},
@@ -191,19 +225,31 @@ func c01NestForms() []nestForm {
 		{"blocks", func(n int) string { return "BEGIN " + rep("{", n) + " print 1 " + rep("}", n) }, 2, nil},
 		{"if-else-ladder", func(n int) string { return "BEGIN { x = 0; " + rep("if (x) { print 1 } else ", n) + "print 'end' }" }, 24, nil},
 		{"nested-ifs", func(n int) string { return "BEGIN { x = 1; " + rep("if (x) ", n) + "print 'deep' }" }, 7, nil},
-		{"nested-while", func(n int) string { return "BEGIN { " + rep("while (1) { ", n) + "print 'deep'; exit " + rep("}", n) + " }" }, 13, nil},
+		{"nested-while", func(n int) string {
+			return "BEGIN { " + rep("while (1) { ", n) + "print 'deep'; exit " + rep("}", n) + " }"
+		}, 13, nil},
 		{"nested-forin", func(n int) string { return "BEGIN { " + rep("for (x in [1]) ", n) + "print 'deep' }" }, 15, nil},
 		{"match-in-match", func(n int) string { return "BEGIN { print " + rep("match (1) { 1 => ", n) + "1" + rep(" }", n) + " }" }, 19,
-			func(n int) string { return "function r(v) { return " + rep("match (v) { w => ", n) + "r(w + 1)" + rep(" }", n) + " } BEGIN { print 'm'; r(1) }" }},
-		{"match-block-in-match-block", func(n int) string { return "BEGIN { " + rep("match (1) { 1 => { ", n) + "print 'deep'" + rep(" } }", n) + " }" }, 23, nil},
+			func(n int) string {
+				return "function r(v) { return " + rep("match (v) { w => ", n) + "r(w + 1)" + rep(" }", n) + " } BEGIN { print 'm'; r(1) }"
+			}},
+		{"match-block-in-match-block", func(n int) string {
+			return "BEGIN { " + rep("match (1) { 1 => { ", n) + "print 'deep'" + rep(" } }", n) + " }"
+		}, 23, nil},
 		{"binary-chain-left", func(n int) string { return "BEGIN { print 1" + rep(" + 1", n) + " }" }, 4,
-			func(n int) string { return "function r(v) { return " + rep("1 + (", n) + "r(v + 1)" + rep(")", n) + " } BEGIN { print 'm'; r(1) }" }},
+			func(n int) string {
+				return "function r(v) { return " + rep("1 + (", n) + "r(v + 1)" + rep(")", n) + " } BEGIN { print 'm'; r(1) }"
+			}},
 		{"binary-chain-right", func(n int) string { return "BEGIN { print " + rep("1 + (", n) + "1" + rep(")", n) + " }" }, 6, nil},
 		{"assignment-chain", func(n int) string { return "BEGIN { " + rep("x = ", n) + "1; print x }" }, 4, nil},
 		{"string-concat-chain", func(n int) string { return "BEGIN { print ('a'" + rep(" + 'a'", n) + ").length() }" }, 6, nil},
 		{"logic-chain", func(n int) string { return "BEGIN { print 1" + rep(" && 1", n) + " }" }, 5, nil},
-		{"array-pattern-nesting", func(n int) string { return "BEGIN { print match (" + rep("[", n) + "1" + rep("]", n) + ") { " + rep("[", n) + "x" + rep("]", n) + " => x } }" }, 4, nil},
-		{"call-argument-nesting", func(n int) string { return "function id(v) { return v } BEGIN { print " + rep("id(", n) + "1" + rep(")", n) + " }" }, 4, nil},
+		{"array-pattern-nesting", func(n int) string {
+			return "BEGIN { print match (" + rep("[", n) + "1" + rep("]", n) + ") { " + rep("[", n) + "x" + rep("]", n) + " => x } }"
+		}, 4, nil},
+		{"call-argument-nesting", func(n int) string {
+			return "function id(v) { return v } BEGIN { print " + rep("id(", n) + "1" + rep(")", n) + " }"
+		}, 4, nil},
 		{"method-call-chain", func(n int) string { return "BEGIN { print 'a'" + rep(".upper()", n) + " }" }, 8, nil},
 		{"deep-json-input-print", func(n int) string { return "{ print 'got'; print $ }" }, 0, nil},
 	}
@@ -391,12 +437,14 @@ func c01Run_(c *Case) {
 func init() {
 	register(&Prop{
 		ID: "C01", Level: "exploration",
-		Rule: "outcome classification only (no model): every run must end as ok / syntax / runtime / json; a recovered panic, a control-flow sentinel or any other error value, the death of the worker process, and for the binary a signal, a Go trace on stderr or a non-zero status without diagnostic are violations. Enumerated: {next, exit, break, continue, return, return v} x 16 placements (BEGIN, END, BEGINFILE, ENDFILE, pattern body, pattern expression via a match block, function called from each of the five rule kinds, match block in BEGIN / pattern rule / function, -r selector via a match block alone and after a plain selector) x {plain, while, for, for-in, nested for-in, nested if} x 4 inputs, all also through the binary; 28 nestable constructs nested 1000 / 8000 / as deep as 64 KiB allows, and 6 of them inside a self-recursive function (recursion x nesting). Sampled: whole-grammar random programs in random layouts, token-level mutations, byte-level mutations of these and of the repository's fuzz corpus, raw bytes; hostile inputs (JSONL, truncated, stray closers, nesting to 20000, garbage, empty); generated / mutated / garbage selectors; EvalExpression on JSON-typed roots; fuzzing flag on and off; step budget 50000 (budget-exhausted runs are inconclusive). Non-trivial = at least 3 interpreter steps executed (hook) or a syntax error in a text of >= 10 bytes; distinct by hash of program+selectors+input.",
+		Rule:          "outcome classification only (no model): every run must end as ok / syntax / runtime / json; a recovered panic, a control-flow sentinel or any other error value, the death of the worker process, and for the binary a signal, a Go trace on stderr or a non-zero status without diagnostic are violations. Enumerated: {next, exit, break, continue, return, return v} x 16 placements (BEGIN, END, BEGINFILE, ENDFILE, pattern body, pattern expression via a match block, function called from each of the five rule kinds, match block in BEGIN / pattern rule / function, -r selector via a match block alone and after a plain selector) x {plain, while, for, for-in, nested for-in, nested if} x 4 inputs, all also through the binary; 28 nestable constructs nested 1000 / 8000 / as deep as 64 KiB allows, and 6 of them inside a self-recursive function (recursion x nesting). Sampled: whole-grammar random programs in random layouts, token-level mutations, byte-level mutations of these and of the repository's fuzz corpus, raw bytes; hostile inputs (JSONL, truncated, stray closers, nesting to 20000, garbage, empty); generated / mutated / garbage selectors; EvalExpression on JSON-typed roots; fuzzing flag on and off; step budget 50000 (budget-exhausted runs are inconclusive). Non-trivial = at least 3 interpreter steps executed (hook) or a syntax error in a text of >= 10 bytes; distinct by hash of program+selectors+input.",
 		NumCases:      c01Cases,
 		Run:           c01Run_,
 		MinConclusive: func(tier string) int { return 20000 },
 		Chunk:         func(tier string) int { return 400 },
-		Exhaustive:    func(tier string) string { return "control-flow signal x placement x loop context x input matrix (2304 cells)" },
-		Assumptions:   []string{"program texts up to 64 KiB", "memory exhaustion by accumulated allocation is out of scope: a worker that hits its address-space limit with an out-of-memory signature is inconclusive", "the -dbg-ast / -dbg-lex flags are out of scope"},
+		Exhaustive: func(tier string) string {
+			return "control-flow signal x placement x loop context x input matrix (2304 cells)"
+		},
+		Assumptions: []string{"program texts up to 64 KiB", "memory exhaustion by accumulated allocation is out of scope: a worker that hits its address-space limit with an out-of-memory signature is inconclusive", "the -dbg-ast / -dbg-lex flags are out of scope"},
 	})
 }
